@@ -35,6 +35,12 @@ for _mt, _mtn, _tier in ((0, 'none', 'quick'), (2, 'ambisonics', 'quick'), (1, '
       trusted=['stub of opus_encode_native asserting the budget it is offered and assuming the single-stream C05 clause (result < 0 or in 1..budget)',
                'stub of opus_repacketizer_out_range_impl asserting its window and assuming the C07 clause (re-framing one packet yields at most packet + self-delimiting length bytes; padding fills the window)',
                'contract stub of frame_size_select (enforced on the real function under C11), stubs of the channel look-ups (C10), opus_encoder_ctl, surround_analysis',
-               'rate_allocation replaced by a stub: assumed clause "with OPUS_AUTO the summed stream rates pay for at least the smallest packet" (2-3 bytes per stream); the per-stream rates themselves have no effect on the byte budget'],
+               'rate_allocation replaced by a stub: assumed clause "with OPUS_AUTO the summed stream rates pay for at least the smallest packet" (2-3 bytes per stream), discharged on the real rate_allocation for <= 8 streams only (bounded group ms_rate_allocation); the per-stream rates themselves have no effect on the byte budget'],
       bounds='mapping type ' + _mtn + ' (one group per mapping type); everything else symbolic',
       what='multistream encoder byte budget for any number of streams (1..255) under loop contracts on both stream loops: every stream is offered >= 1 byte (>= 2 for 100 ms), the self-delimiting length always fits, each packet is written where the previous one ended inside max_data_bytes, result in 1..max_data_bytes or a negative error; OPUS_BUFFER_TOO_SMALL only below the smallest possible packet'))
+
+GROUPS.append(dict(name='ms_rate_allocation', cls='B', tu='C05_ms_rate.c', entry='h_ms_rate', dfcc=False, canary='real', expect_canaries=2, unwind=10, defines=['-DVERIF_ST=8'], timeout=1500, mem_gb=12,
+    functions=['rate_allocation', 'surround_rate_allocation', 'ambisonics_rate_allocation'],
+    trusted=['stub of opus_encoder_ctl (sample-rate query)'],
+    bounds='<= 8 streams, every input channel coded (coupled count, LFE, mapping type, bitrate setting, rate and frame duration symbolic)',
+    what='multistream rate split: >= 500 b/s per stream, sum returned, no overflow for any storable bitrate, and the OPUS_AUTO clause the byte-budget proof assumes of its rate_allocation stub'))
